@@ -164,7 +164,7 @@ def sany(module_paths):
 
 # ----------------------------------------------------------------------------- trace validation
 
-def validate_runs(scratch, module, cfg, runs, name, max_reject=5, chunk_events=150000, timeout=900, deque=False, env=None):
+def validate_runs(scratch, module, cfg, runs, name, max_reject=5, chunk_events=150000, timeout=900, deque=False, env=None, remainder=None):
     """Direction B.  runs: list of {"id":…, "reset": {reset event}, "events": [event dicts]}.
     Concatenates them (each preceded by its Reset line) into NDJSON files of at most
     chunk_events lines, has TLC check each file against the trace spec, and returns
@@ -219,11 +219,75 @@ def validate_runs(scratch, module, cfg, runs, name, max_reject=5, chunk_events=1
             r = chunk[k]
             idx = bad_line - starts[k] - 1
             ev = r["reset"] if idx < 0 else r["events"][idx]
+            r = dict(r, _tlc_out=res.out[-20000:])
             rejected.append((r, idx, ev))
             accepted += k
             stats["events"] += starts[k] - 1
             chunk = chunk[k + 1:]
+            if remainder is not None and idx >= 0:
+                rest = remainder(r, idx)      # what is left of the rejected run, so that it is examined too
+                if rest is not None and rest["events"]:
+                    chunk = [rest] + chunk
     return accepted, rejected, stats
+
+
+def validate_lenient(scratch, module, cfg, runs, name, chunk_events=40000, parallel=6, env=None, timeout=1200):
+    """Like validate_runs for trace specs that REPORT refused lines (Print <<"@@REFUSED", line, payload>>)
+    and go on: one TLC pass per chunk, chunks in parallel.  Returns (refusals, mono, stats) with
+    refusals = [(run, idx, event, payload)], mono = [(run, idx)] for @@MONO-MISMATCH lines."""
+    from concurrent.futures import ThreadPoolExecutor
+    chunks, cur, n = [], [], 0
+    for r in runs:
+        cur.append(r)
+        n += len(r["events"]) + 1
+        if n >= chunk_events:
+            chunks.append(cur)
+            cur, n = [], 0
+    if cur:
+        chunks.append(cur)
+    stats = {"tlc_runs": len(chunks), "events": 0, "states": 0}
+
+    def one(ci):
+        chunk = chunks[ci]
+        d = scratch.sub("ltrace-%s-%d" % (name, ci))
+        tf = os.path.join(d, "trace.ndjson")
+        index = []     # line -> (run, idx)
+        with open(tf, "w") as f:
+            for r in chunk:
+                index.append((r, -1))
+                f.write(json.dumps(r["reset"]) + "\n")
+                for i, e in enumerate(r["events"]):
+                    index.append((r, i))
+                    f.write(json.dumps(e) + "\n")
+        e2 = {"VERIF_TRACE": tf}
+        e2.update(env or {})
+        res = run_tlc(scratch, module, cfg, workers=1, serial=True, heap="6g", env=e2, timeout=timeout,
+                      name="l%s-%d" % (name, ci), allow_violation=True)
+        if res.error_kind is not None:
+            m = re.search(r'"@@REJECTED-AT-LINE", (\d+)', res.out)
+            where = index[int(m.group(1)) - 1] if m and int(m.group(1)) - 1 < len(index) else None
+            raise MachineryError("trace %s could not be consumed (%s) at %s:\n%s" % (
+                name, res.error_kind, json.dumps(where[0]["events"][where[1]])[:500] if where and where[1] >= 0 else where, res.out[-1500:]))
+        refusals, mono = [], []
+        for line in res.out.splitlines():
+            if line.startswith('<<"@@REFUSED", '):
+                m = re.match(r'<<"@@REFUSED", (\d+), "(.*)">>\s+TRUE\s*$', line)
+                if not m:
+                    raise MachineryError("cannot parse refusal line: %s" % line[:300])
+                r, idx = index[int(m.group(1)) - 1]
+                refusals.append((r, idx, r["events"][idx] if idx >= 0 else r["reset"], _tla_unescape(m.group(2))))
+            elif line.startswith('<<"@@MONO-MISMATCH", '):
+                m = re.match(r'<<"@@MONO-MISMATCH", (\d+)>>', line)
+                mono.append(index[int(m.group(1)) - 1])
+        return refusals, mono, len(index), res.distinct
+    refusals, mono = [], []
+    with ThreadPoolExecutor(max_workers=parallel) as ex:
+        for rf, mn, nl, st in ex.map(one, range(len(chunks))):
+            refusals += rf
+            mono += mn
+            stats["events"] += nl
+            stats["states"] += st
+    return refusals, mono, stats
 
 
 # ----------------------------------------------------------------------------- TLA+ value parser
@@ -587,6 +651,8 @@ class Verdicts:
         self.hit_known = {}
         self.violations = []
         self.notes = []
+        self.sig_count = {}
+        self.sig_first = {}
 
     def violation(self, signature, what, replay_obj):
         """signature: canonical descriptor string computed by the check's classifier."""
@@ -596,11 +662,16 @@ class Verdicts:
                 kk, n = self.hit_known[k["id"]]
                 self.hit_known[k["id"]] = (kk, n + 1)
                 return False
+        self.sig_count[signature] = self.sig_count.get(signature, 0) + 1
+        if self.sig_count[signature] > 2:       # at most two replay files per signature
+            self.violations.append((signature, what, self.sig_first[signature]))
+            return True
         os.makedirs(os.path.join(VERIF, "replays"), exist_ok=True)
         h = hashlib.sha1((signature + json.dumps(replay_obj, sort_keys=True, default=str)).encode()).hexdigest()[:12]
         path = os.path.join(VERIF, "replays", "%s-%s.json" % (self.pid, h))
         with open(path, "w") as f:
             json.dump({"property": self.pid, "signature": signature, "what": what, "case": replay_obj}, f, indent=1, default=str)
+        self.sig_first.setdefault(signature, path)
         self.violations.append((signature, what, path))
         return True
 
@@ -611,13 +682,16 @@ class Verdicts:
     def finish(self):
         for kid, (k, n) in sorted(self.hit_known.items()):
             log("KNOWN-FINDING: property=%s %s [%s, %d occurrence(s) this run]" % (self.pid, k["what"], kid, n))
+        for k in self.known:
+            if k["id"] not in self.hit_known:
+                log("NOTE: recorded finding %s did not reproduce in this run (%s)" % (k["id"], k["what"][:80]))
         seen = set()
         for sig, what, path in self.violations:
             if sig in seen:
                 continue
             seen.add(sig)
             log("VIOLATION property=%s replay=%s" % (self.pid, path))
-            log("  signature: %s\n  %s" % (sig, what))
+            log("  signature: %s (%d occurrence(s))\n  %s" % (sig, self.sig_count.get(sig, 1), what))
         return 1 if self.violations else 0
 
 
